@@ -16,7 +16,20 @@ mod vclock;
 use std::io::{BufRead, Write};
 
 /// executes one request line on the real code and returns the canonical answer
-fn exec_line(line: &str) -> String {
+fn exec_line(line0: &str) -> String {
+    // `<request> @env NAME=VALUE [NAME=VALUE …]`: the request is executed with these environment variables set
+    // (nothing the library does may depend on the environment); the model ignores the modifier
+    let (line, envs): (&str, Vec<(String, String)>) = match line0.find(" @env ") {
+        Some(i) => (&line0[..i], line0[i + 6..].split_whitespace().filter_map(|kv| kv.split_once('=')).map(|(k, v)| (k.to_string(), v.to_string())).collect()),
+        None => (line0, Vec::new()),
+    };
+    for (k, v) in &envs { std::env::set_var(k, v); }
+    let r = exec_line_inner(line);
+    for (k, _) in &envs { std::env::remove_var(k); }
+    r
+}
+
+fn exec_line_inner(line: &str) -> String {
     let toks: Vec<&str> = line.split_whitespace().collect();
     match toks.first().copied() {
         Some("client") => client::exec(&toks),
@@ -131,7 +144,7 @@ fn main() {
         Some("slabagen") => { emit("slaba".to_string()); }
         Some("slxgen") => {
             // one full exhaustion of the retry budget + short scripted runs (more with `all`)
-            let mut v = vec!["slx 2 1000 3", "slx 2 1", "slx 3 5", "slx 0 7", "slx 65534 1", "slx 4 1"];
+            let mut v = vec!["slx 2 1000 3", "slx 2 1", "slx 3 5", "slx 0 7", "slx 65534 1", "slx 4 1", "slx 4 1 5", "slx 65534 3 5"];
             if args.get(2).map(|s| s.as_str()) == Some("all") { v.extend(["slx 2 1000", "slx 6 1 1", "slx 65534 3", "slx 4 2", "slx 65532 40000", "slx 65534 1 1", "slx 2 7 1"]); }
             for l in v { emit(l.to_string()); }
         }
